@@ -36,6 +36,8 @@ const (
 	groupC = 2_000_000 // shipped configuration files
 	groupD = 3_000_000 // feedback-guided mutation loop (thorough only)
 	groupE = 4_000_000 // small-scope exhaustive lexical enumeration
+	groupF = 5_000_000 // size classes: sources and trees of 4 KiB .. 8 MiB (big_test.go)
+	groupG = 6_000_000 // expansion growth measurements (big_test.go)
 )
 
 type harness struct {
@@ -126,7 +128,14 @@ func bucket(n int) string {
 }
 
 func witness(in []byte, extra map[string]any) map[string]any {
-	w := map[string]any{"input_go_quoted": strconv.Quote(string(in)), "input_len": len(in)}
+	w := map[string]any{"input_len": len(in)}
+	if len(in) <= maxInputLen {
+		w["input_go_quoted"] = strconv.Quote(string(in))
+	} else {
+		// big inputs (group F/G) are reproducible from (seed, index); the witness keeps both ends
+		w["input_head_go_quoted"] = strconv.Quote(string(in[:2000]))
+		w["input_tail_go_quoted"] = strconv.Quote(string(in[len(in)-2000:]))
+	}
 	for k, v := range extra {
 		w[k] = v
 	}
@@ -183,6 +192,13 @@ func (h *harness) judge(c sink, st *stats, raw []byte, capNodes int64, origin st
 
 // judgeAt: `in` is handed to the parser as is, with loc as its location.
 func (h *harness) judgeAt(c sink, st *stats, in []byte, loc string, capNodes int64, origin string) verdictInfo {
+	return h.judgeFull(c, st, in, loc, capNodes, capMacroBytes, origin, nil)
+}
+
+// judgeFull: like judgeAt with an explicit macro byte cap and, when the harness
+// wrote `in` itself from a tree (known != nil), the known-source oracle: a
+// successful parse must return exactly that tree.
+func (h *harness) judgeFull(c sink, st *stats, in []byte, loc string, capNodes, capMacro int64, origin string, known *knownSource) verdictInfo {
 	toks := refLex(in)
 	cost, nImports, _ := estimateExpansion(toks, capNodes)
 	if cost > capNodes {
@@ -191,7 +207,7 @@ func (h *harness) judgeAt(c sink, st *stats, in []byte, loc string, capNodes int
 		return verdictInfo{skipped: true, class: "skipped"}
 	}
 	sLevel, dollarToks := conditionS(toks)
-	if mb := estimateMacroBytes(toks, sLevel, capMacroBytes); mb > capMacroBytes {
+	if mb := estimateMacroBytes(toks, sLevel, capMacro); mb > capMacro {
 		st.count["skipped_over_macro_expansion_cap"]++
 		st.count["by_origin/"+origin+"/skipped"]++
 		return verdictInfo{skipped: true, class: "skipped"}
@@ -253,6 +269,24 @@ func (h *harness) judgeAt(c sink, st *stats, in []byte, loc string, capNodes int
 		st.count["trees_deeper_than_source_limit_via_import"]++
 	}
 
+	// known-source oracle (independent of the parser: the harness generated the
+	// text from this tree using only constructs whose meaning is unambiguous)
+	if known != nil {
+		st.evals++
+		known.parsed = true
+		if class, what := sameTree(known.tree, nodes); class != "" {
+			known.differs = true
+			last := "none"
+			if len(nodes) > 0 {
+				ln := nodes[len(nodes)-1]
+				last = truncate(fmt.Sprintf("%q %q (line %d, block=%v)", ln.Name, ln.Args, ln.Line, ln.Children != nil), 300)
+			}
+			c.Violation("known-source/differs/"+class, fmt.Sprintf("a text the harness wrote from a tree of %d top-level directives (%s) parsed without error to a different tree (%d top-level nodes): %s",
+				len(known.tree), known.what, len(nodes), truncate(what, 500)),
+				witness(in, map[string]any{"origin": origin, "generator": known.what, "top_level_written": len(known.tree), "top_level_returned": len(nodes), "last_returned": last}))
+		}
+	}
+
 	// round-trip law
 	rt := "rt-skip"
 	if why := inexpressible(nodes); why != "" {
@@ -264,6 +298,9 @@ func (h *harness) judgeAt(c sink, st *stats, in []byte, loc string, capNodes int
 		h.logInput([]byte(text))
 		st.evals++
 		st.count["roundtrip_judged"]++
+		if known != nil {
+			known.printedLen = len(text)
+		}
 		if facts.nodes > 0 {
 			st.count["roundtrip_judged_nonempty"]++
 		}
@@ -275,12 +312,12 @@ func (h *harness) judgeAt(c sink, st *stats, in []byte, loc string, capNodes int
 		case err2 != nil:
 			rt = "rt-bad"
 			c.Violation("roundtrip/reparse-error/"+errClass(err2), fmt.Sprintf("canonical print of the parsed tree does not parse: %v", err2),
-				witness(in, map[string]any{"printed_go_quoted": strconv.Quote(truncate(text, 20000))}))
+				witness(in, map[string]any{"printed_len": len(text), "printed_go_quoted": strconv.Quote(truncate(text, 20000))}))
 		default:
 			if class, what := sameTree(nodes, nodes2); class != "" {
 				rt = "rt-bad"
 				c.Violation("roundtrip/differs/"+class, "parse(print(tree)) differs from tree: "+what,
-					witness(in, map[string]any{"printed_go_quoted": strconv.Quote(truncate(text, 20000))}))
+					witness(in, map[string]any{"printed_len": len(text), "printed_go_quoted": strconv.Quote(truncate(text, 20000))}))
 			}
 		}
 	}
@@ -386,6 +423,10 @@ func TestVerif(t *testing.T) {
 
 	// ---- group E: exhaustive small-scope enumeration over the lexical alphabet ----
 	h.lexEnum(r.N(5, 6))
+
+	// ---- group F: size classes; group G: expansion growth ----
+	h.bigInputs()
+	h.expansionGrowth()
 
 	// ---- group C: shipped configuration files ----
 	h.shipped(t)
@@ -518,6 +559,9 @@ func (h *harness) targeted() {
 				"a {\n", "}\n", "a { }\n", "a {\n}\n", "a b { c d { e f } }\n", "a \"{\" {\nb \"}\"\n}\n",
 				"a { b {\nc }\n}\n", "a { b { c { d } } }\n", "a { b { c } } # x\n", "a { b { c } }\r\n",
 				"a { b { c }\n", "(s) { a { b } }\nimport s\n", "a { b { c } }\n}\n",
+				// declarations that close a block as their last token (oddity 1: the block must end there or the text be rejected)
+				"a { $(x) = 1 }\n", "a { (s) }\n", "a { $(x) = 1 }\nb\n", "a { (s) }\nb $(x)\n", "a {\n$(x) = 1 }\n", "a { b\n$(x) = 1 }\n",
+				"a { b {\n(s) }\n", "a {\n b v\n (s) }\nc\n",
 			}
 			for pi, pat := range patterns {
 				for _, n := range []int{1, 2, 3, 10, 100, 255, 256, 257, 300, 700, 2000} {
